@@ -289,7 +289,8 @@ Record ch_log := mkChLog {
   cl_version : N; cl_random : bytes; cl_sid : bytes; cl_suites : list N; cl_comps : bytes;
   cl_ocsp : bool; cl_ticket : bool; cl_reneg : bool; cl_sni : bytes; cl_scts : bool;
   cl_curves : list N; cl_points : bytes; cl_versions : list N;
-  cl_session_ticket : option bytes; cl_sigalgs : list (N * N); cl_alpn : list bytes }.
+  cl_session_ticket : option bytes; cl_sigalgs : list (N * N); cl_alpn : list bytes;
+  cl_ems : bool }.
 
 Record sh_log := mkShLog {
   sl_version : N; sl_random : bytes; sl_sid : bytes; sl_suite : N; sl_comp : N;
@@ -335,7 +336,7 @@ Definition ch_log_of (h : hello) : option ch_log :=
           (has_ext ext_status_request ex) (has_ext ext_ticket ex) (has_ext ext_reneg ex) sni
           (has_ext ext_sct ex) curves points versions
           (match find_ext ext_ticket ex with Some (x :: t) => Some (x :: t) | _ => None end)
-          (map_sig_algs sigalgs) alpn).
+          (map_sig_algs sigalgs) alpn (has_ext ext_ems ex)).
 
 Definition sh_log_of (h : hello) (a : aux) : option sh_log :=
   let ex := h_exts h in
@@ -432,7 +433,8 @@ Definition ch_log_eqb (a b : ch_log) : bool :=
   bytes_eqb (cl_sni a) (cl_sni b) && Bool.eqb (cl_scts a) (cl_scts b) &&
   lN_eqb (cl_curves a) (cl_curves b) && bytes_eqb (cl_points a) (cl_points b) && lN_eqb (cl_versions a) (cl_versions b) &&
   option_eqb bytes_eqb (cl_session_ticket a) (cl_session_ticket b) &&
-  list_eqb pairN_eqb (cl_sigalgs a) (cl_sigalgs b) && list_eqb bytes_eqb (cl_alpn a) (cl_alpn b).
+  list_eqb pairN_eqb (cl_sigalgs a) (cl_sigalgs b) && list_eqb bytes_eqb (cl_alpn a) (cl_alpn b) &&
+  Bool.eqb (cl_ems a) (cl_ems b).
 
 Definition sh_log_eqb (a b : sh_log) : bool :=
   (sl_version a =? sl_version b) && bytes_eqb (sl_random a) (sl_random b) && bytes_eqb (sl_sid a) (sl_sid b) &&
